@@ -4,4 +4,10 @@ go 1.26.8
 
 require wa-lang.org/wa v0.0.0
 
+require (
+	golang.org/x/mod v0.41.0 // indirect
+	golang.org/x/sync v0.23.0 // indirect
+	golang.org/x/tools v0.50.0
+)
+
 replace wa-lang.org/wa => /repo
